@@ -69,7 +69,9 @@ func EvalVariant(r *simrt.Run, v Variant, cfg EvalCfg, setCols func(string, int)
 		store := NewStore(cfg.Store)
 		if !inline {
 			for _, f := range v.Prog.Facts {
-				store.Add(ToAtom(f))
+				if pi := v.Prog.Pred(f.Pred); pi != nil && pi.EDB {
+					store.Add(ToAtom(f))
+				}
 			}
 		}
 		if cfg.Determ {
